@@ -33,6 +33,7 @@ type Case struct {
 	B     [][2]int `json:"b"`     // used when Edits is null: an independently built map
 	Edits []Edit   `json:"edits"` // B = A with these edits applied through Mutate()/Map()
 	Rel   bool     `json:"rel"`
+	Sep   bool     `json:"sep"` // the second map carries separately allocated (Equal) descriptors
 	Rng   [][]*int `json:"rng"`
 }
 
@@ -75,7 +76,7 @@ func Run(raw json.RawMessage) (any, error) {
 	if err := json.Unmarshal(raw, &c); err != nil {
 		return nil, err
 	}
-	e := c11.NewEnv(c.KW, 0)
+	e := c11.NewEnvEnc(c.KW) // values are codes 2*v+nc (nc = non-canonical encoding of the same row)
 	a := e.Build(c.A)
 	var b prolly.Map
 	if c.Rel {
@@ -96,6 +97,14 @@ func Run(raw json.RawMessage) (any, error) {
 		}
 	} else {
 		b = e.Build(c.B)
+	}
+	if c.Sep {
+		kd2, vd2 := e.FreshDescs()
+		kd, vd := e.Descs()
+		if kd2 == kd || vd2 == vd || !vd2.Equals(vd) || !kd2.Equals(kd) {
+			panic("fresh descriptors must be distinct objects that are Equal")
+		}
+		b = prolly.NewMap(b.Node(), e.Ns, kd2, vd2)
 	}
 	var o Obs
 	o.TA = e.Dump(a.Node())
